@@ -39,7 +39,7 @@ def _override_component(item, built, name):
     if name == "cond":
         return "If.cond"
     if item.get("fam") == "corpus":
-        return "corpus." + item["name"]
+        return "corpus-input"
     spec = optplan.item_spec(item)
     # mz names constants k<N> in emission order; recover op/role by rebuilding the order
     n = 0
@@ -137,11 +137,11 @@ def _execute(item):
                 dsig = rec.get("diff") or ""
             if kind == "override":
                 role = _override_component(item, built, v.get("name"))
-                key = f"C04|override|{comp}|{role}"
+                key = f"C04|override|{comp}|{role.split('.')[0]}"   # consumer op of the overridable operand
             elif kind == "default-lost":
                 key = f"C04|default-lost|{comp}|{v['param']}"
             elif optplan.root_cause_tag(item_use, comp, dsig):
-                key = f"C04|{kind}|fold|{optplan.root_cause_tag(item_use, comp, dsig)}"
+                key = f"C04|{kind}|{comp if str(comp).startswith('rule:') else 'fold'}|{optplan.root_cause_tag(item_use, comp, dsig)}"
             else:
                 key = f"C04|{kind}|{comp}|{dsig}|{v['param']}"
                 extra = [x for x in optplan.nondefault_params(item_use, set()) if x.startswith(("x=", "wrap=", "opset="))]
